@@ -5,5 +5,5 @@ rm -rf /tmp/probe/mut/$name; mkdir -p /tmp/probe/mut/$name/o; cp -r /repo/src /t
 sed -i "$expr" /tmp/probe/mut/$name/src/$file
 if diff -q /repo/src/$file /tmp/probe/mut/$name/src/$file >/dev/null; then echo "MUTANT $name: sed did not change anything"; exit 1; fi
 S=/tmp/probe/mut/$name
-for f in $(ls $S/src/*.cpp | grep -v -e call_machine -e json.cpp); do echo $f; done | xargs -P16 -I{} sh -c "g++ -std=c++11 -O1 -g -fno-rtti -fno-exceptions -fsanitize=address,undefined -fno-sanitize-recover=all -DGRAPHITE2_NTRACING -DGRAPHITE2_STATIC -I$S/include -I$S/src -c {} -o $S/o/\$(basename {} .cpp).o" && ar rcs $S/libgr.a $S/o/*.o && g++ -std=c++11 -O1 -g -fsanitize=address,undefined -fno-sanitize-recover=all -I/repo/include /verif/work/proto/dumpdrv.cpp $S/libgr.a -o $S/dumpdrv && cd /verif/work/proto && DRV=$S/dumpdrv timeout 600 python3 cmp.py 60 7 "assoc,ret,cons,pre,delete,insert,attach,rtl" 2>&1 | tail -1 | sed "s/^/MUTANT $name: /"
+for f in $(ls $S/src/*.cpp | grep -v -e call_machine -e json.cpp); do echo $f; done | xargs -P16 -I{} sh -c "g++ -std=c++11 -O1 -g -fno-rtti -fno-exceptions -fsanitize=address,undefined -fno-sanitize-recover=all -DGRAPHITE2_NTRACING -DGRAPHITE2_STATIC -I$S/include -I$S/src -c {} -o $S/o/\$(basename {} .cpp).o" && ar rcs $S/libgr.a $S/o/*.o && g++ -std=c++11 -O1 -g -fsanitize=address,undefined -fno-sanitize-recover=all -I/repo/include /verif/work/proto/dumpdrv.cpp $S/libgr.a -o $S/dumpdrv && cd /verif/work/proto && DRV=$S/dumpdrv timeout 600 python3 cmp.py 100 7 "mixed,noassoc,multi,assoc,ret,cons,pre,delete,insert,attach,rtl" 2>&1 | tail -1 | sed "s/^/MUTANT $name: /"
 rm -rf /tmp/probe/mut/$name
